@@ -15,7 +15,7 @@ Targets == { [abs |-> FALSE, comps |-> <<"..", "out">>], [abs |-> TRUE, comps |-
              [abs |-> FALSE, comps |-> <<"..", "out", "new">>], [abs |-> TRUE, comps |-> <<"out", "new2">>] }
 Entries == { [comps |-> p, kind |-> "file", data |-> "new", target |-> [abs |-> FALSE, comps |-> <<>>]] : p \in Paths }
            \cup { [comps |-> p, kind |-> "dir", data |-> "", target |-> [abs |-> FALSE, comps |-> <<>>]] : p \in Paths }
-           \cup { [comps |-> p, kind |-> "link", data |-> "", target |-> t] : p \in {<<"a">>, <<"b">>}, t \in Targets }
+           \cup { [comps |-> p, kind |-> "link", data |-> "", target |-> t] : p \in {<<"a">>, <<"b">>, <<".">>}, t \in Targets }
            \cup { [comps |-> <<"a">>, kind |-> "other", data |-> "", target |-> [abs |-> FALSE, comps |-> <<>>]] }
 VARIABLES fs, todo, ok
 Init == fs = Fs0 /\ ok = TRUE /\ todo \in UNION { [1..n -> Entries] : n \in 1..MaxEntries }
